@@ -2,12 +2,14 @@
 \* reject it: a forged detached change stays in the history and its dependents are evaluated.
 CONSTANTS
   Atomic = TRUE
+  SingleInPlace = FALSE
   DropDetached = FALSE
   Namespace = {1}
   M = 2
   MaxTs = 1
   Classes = {"ok", "badSig"}
   MaxBad = 1
+  FullCauses = 1
   AllowDetached = TRUE
   Emit = FALSE
   EmitMod = 1
